@@ -1,6 +1,6 @@
 from run import Family
 
-BOUNDS = {'stack step': 'one line of each kind (begin known / begin unknown / end / text / comment) from every depth 0..254, depth symbolic within each capacity class (capacity 20, 40, 80, 160, and above 160 whatever the growth step of the code itself produces); two registered contexts; handler states symbolic',
+BOUNDS = {'stack step': 'one line of each kind (begin known / begin unknown / end / text / comment / text whose first word merely starts with end or begin) from every depth 0..254, depth symbolic within each capacity class (capacity 20, 40, 80, 160, and above 160 whatever the growth step of the code itself produces); two registered contexts; handler states symbolic',
           'files': 'every file of 0..3 lines and a 24th of the 4-line files (quick) / every file of 0..4 lines and an eighth of the 5-line files (thorough) over {comment, begin one, begin two, begin zz, end, text} after the magic line, through fopen/fgets/fclose stubs',
           'include': 'a main file of 0..2 lines with one %include at every position, included file of 0..2 lines (main+included <= 2 lines: all; 3 lines: an eighth, 4 lines: a 72nd in quick; all in thorough)',
           'outside': 'nested %include (the file-stack step is checked in C11), %preproc, backquotes'}
@@ -20,7 +20,9 @@ def families(tier):
     classes = [(20, 0, 0), (20, 1, 18), (20, 19, 19), (40, 20, 38), (40, 39, 39), (80, 40, 78), (80, 79, 79), (160, 80, 158), (160, 159, 159),
                (-160, 160, 175), (-160, 176, 191), (-160, 192, 207), (-160, 208, 223), (-160, 224, 239), (-160, 240, 253), (-160, 254, 254)]    # negative: the class the code's own growth from a full 160-entry table produces
     for cap, lo, hi in classes:
-        for kind, kn in enumerate(('begin_known', 'begin_unknown', 'end', 'text', 'comment')):
+        for kind, kn in enumerate(('begin_known', 'begin_unknown', 'end', 'text', 'comment', 'text_endian', 'text_beginner')):
+            if kind >= 5 and not (hi < 20 or lo == hi):
+                continue        # keyword look-alikes: the small classes and the growth points
             f.add('C09/step/%s/cap=%d,depth=%d..%d' % (kn, cap, lo, hi), 'h_step', cap, lo, hi, kind)
     g = Family('files', 'c09_conf.c', unwind=22, cap=(200, 4) if q else (600, 8), **COMMON)
     for n in range(0, 5 if q else 6):
